@@ -376,7 +376,7 @@ func VfC03_DeepMemory() {
 	vcallee := m.NewFunc("vcallee", it, ir.NewParam("a", it))
 	vcallee.Sig.Variadic = true
 	f := m.NewFunc(hLetterIn("fname", 'a', 'e'), types.Void,
-		ir.NewParam("x", it), ir.NewParam("p", types.NewPointer(it)), ir.NewParam("v", types.NewVector(4, it)), ir.NewParam("d", types.Double), ir.NewParam("va", types.I8Ptr), ir.NewParam("ps", types.NewPointer(types.NewStruct(it, types.NewArray(2, types.I8), types.NewStruct(types.I8, types.I64)))))
+		ir.NewParam("x", it), ir.NewParam("p", types.NewPointer(it)), ir.NewParam("v", types.NewVector(4, it)), ir.NewParam("d", types.Double), ir.NewParam("va", types.I8Ptr), ir.NewParam("ps", types.NewPointer(types.NewStruct(it, types.NewArray(2, types.I8), types.NewStruct(types.I8, types.I64)))), ir.NewParam("arr", types.NewPointer(types.NewArray(4, types.I32))))
 	b := f.NewBlock("entry")
 	x, p, v, d, va := value.Value(f.Params[0]), value.Value(f.Params[1]), value.Value(f.Params[2]), value.Value(f.Params[3]), value.Value(f.Params[4])
 	one := constant.NewInt(types.I32, 1)
@@ -396,6 +396,15 @@ func VfC03_DeepMemory() {
 	b.NewExtractValue(agg, 1, 0)
 	b.NewInsertValue(agg, x, 0)
 	b.NewInsertValue(agg, constant.NewInt(types.I64, int64(vfByte("k")&7)), 2, 1)
+	// getelementptr with vector-typed constant indices that are not vector
+	// literals: the result is a vector of pointers (used below, so that its
+	// type is printed)
+	arrT := types.NewArray(4, types.I32)
+	i64v := types.NewVector(2, types.I64)
+	gz := b.NewGetElementPtr(arrT, f.Params[6], constant.NewInt(types.I64, 0), constant.NewZeroInitializer(i64v))
+	b.NewExtractElement(gz, one)
+	gu := b.NewGetElementPtr(arrT, f.Params[6], constant.NewUndef(i64v), constant.NewInt(types.I64, 1))
+	b.NewExtractElement(gu, one)
 	e := b.NewExtractElement(v, one)
 	iv := b.NewInsertElement(v, e, one)
 	b.NewShuffleVector(v, iv, constant.NewZeroInitializer(types.NewVector(4, types.I32)))
